@@ -862,10 +862,8 @@ pub fn run(ctx: &mut Ctx, dom: &str, a: &[Arg]) {
                                 match guard(|| it.next()) {
                                     Ok(Some(t)) => ctx.ln("next", format!("VAL some {}", tag_line(&g, t))),
                                     Ok(None) => ctx.ln("next", "VAL none"),
-                                    Err(()) => {
-                                        ctx.ln("next", "PANIC");
-                                        pool[i] = None;
-                                    }
+                                    // the panic is caught: the iterator stays in the pool as next() left it
+                                    Err(()) => ctx.ln("next", "PANIC"),
                                 }
                             } else {
                                 ctx.ln("next", "skip");
